@@ -471,7 +471,36 @@ func evalObject(node *jparse.ObjectNode, data reflect.Value, env *environment) (
 	nItems := data.Len()
 	results := make(map[string]interface{}, len(keys))
 
-	for key, idx := range keys {
+	// Evaluate the values in the order of their key/value pairs
+	// (and, within a pair, of the first item of each group), not
+	// in Go's random map order: a value expression can bind a
+	// variable that another one reads, and then the result must
+	// not change from one evaluation to the next.
+	order := make([]string, 0, len(keys))
+	for key := range keys {
+		order = append(order, key)
+	}
+	sort.Slice(order, func(i, j int) bool {
+		a, b := keys[order[i]], keys[order[j]]
+		if a.pair != b.pair {
+			return a.pair < b.pair
+		}
+		ai, bi := -1, -1
+		if len(a.items) > 0 {
+			ai = a.items[0]
+		}
+		if len(b.items) > 0 {
+			bi = b.items[0]
+		}
+		if ai != bi {
+			return ai < bi
+		}
+		return order[i] < order[j]
+	})
+
+	for _, key := range order {
+
+		idx := keys[key]
 
 		items := data
 		if n := len(idx.items); n != 0 && n != nItems {
